@@ -588,6 +588,47 @@ func (it *c10Interp) call(x *ssa.Call, get func(ssa.Value) *cval, depth int) *cv
 		}
 		it.trace = append(it.trace, fmt.Sprintf("%s:%s=%d", it.c.pos(x.Pos()), x.Call.Method.Name(), sz))
 		return &cval{t: x.Type(), i: big.NewInt(sz)}
+	case n == "(reflect.Value).CanFloat" || n == "(reflect.Value).CanInt" || n == "(reflect.Value).CanUint" || n == "(reflect.Value).IsValid":
+		recv := get(x.Call.Args[0])
+		if recv == nil || !recv.refl || recv.dyn == nil {
+			it.undec = "reflect predicate on an unknown value at " + it.c.pos(x.Pos())
+			return nil
+		}
+		_, signed, isFloat, okb := it.z.bitsSigned(recv.dyn)
+		if !okb {
+			it.undec = "reflect predicate on a non-numeric value at " + it.c.pos(x.Pos())
+			return nil
+		}
+		var r bool
+		switch {
+		case strings.HasSuffix(n, "CanFloat"):
+			r = isFloat
+		case strings.HasSuffix(n, "CanInt"):
+			r = !isFloat && signed
+		case strings.HasSuffix(n, "CanUint"):
+			r = !isFloat && !signed
+		default:
+			r = true
+		}
+		it.trace = append(it.trace, fmt.Sprintf("%s:%s=%v", it.c.pos(x.Pos()), n[len("(reflect.Value)."):], r))
+		return &cval{t: x.Type(), isB: true, b: r}
+	case n == "(reflect.Value).Int" || n == "(reflect.Value).Uint":
+		recv := get(x.Call.Args[0])
+		if recv == nil || !recv.refl || recv.dyn == nil || recv.inner == nil {
+			it.undec = "reflect accessor on an unknown value at " + it.c.pos(x.Pos())
+			return nil
+		}
+		_, signed, isFloat, okb := it.z.bitsSigned(recv.dyn)
+		wantSigned := n == "(reflect.Value).Int"
+		if !okb || isFloat || signed != wantSigned {
+			// reflect panics when the accessor does not match the kind
+			it.viol = fmt.Sprintf("%s is called on a value of kind %s at %s: reflect panics", n, basicOf(recv.dyn).Name(), it.c.pos(x.Pos()))
+			it.violAt = x.Pos()
+			return nil
+		}
+		cp := *recv.inner
+		cp.t = x.Type()
+		return &cp
 	case n == "(reflect.Value).Float":
 		recv := get(x.Call.Args[0])
 		if recv == nil || recv.inner == nil || !recv.inner.isF {
